@@ -382,6 +382,9 @@ def run_world(world, budget=4000):
     comp.addBorrowers(*[AnyFileBorrower(BorrowReader(i, b, log), genTexts=b.get('texts', False))
                         for i, b in enumerate(world.get('borrowers', []))])
     opts = dict(default_opts(), **world.get('opts', {}))
+    if world.get('implicit'):
+        # the call names only the options that differ from the defaults: an option left out means its default
+        opts = dict(world.get('opts', {}))
     if opts.get('dstTemplate'):
         opts['dstTemplate'] = template_copy()
     obs = {'log': log, 'produced': codegen.produced, 'injected': log.injected}
